@@ -83,9 +83,9 @@ PROPS = {
             'is_ascii_digits (iterator adapter) is discharged by the complete Kani harness kani::timeout_digits for every ASCII string of at most 8 bytes - the Verus shim carries that length as a precondition, proved at the call site - and linked as a callee contract; str::parse::<u64>, str::split_at, Display of integers are assumed std contracts (A-std-parse-01, A-std-str-04, A-fmt-01)',
         ]),
     'C08': dict(
-        units=['metadata', 'reqresp', 'status', 'clientglue', 'serverglue'], level='proof',
+        units=['metadata', 'reqresp', 'status', 'clientglue', 'serverglue', 'b64cfg'], level='proof',
         not_covered=[
-            'value preservation rests on the assumed http::HeaderMap multimap contract (A-http-20..28) and the base64 inverse axioms (A-b64-01: both engines decode padded and unpadded input); tonic/src/util.rs engine configuration is represented by the Engine shim',
+            'value preservation rests on the assumed http::HeaderMap multimap contract (A-http-20..28) and the base64 inverse axioms (A-b64-01: both engines decode padded and unpadded input); the two engine constants of tonic/src/util.rs are checked against that assumption in unit b64cfg (standard alphabet; STANDARD pads, STANDARD_NO_PAD does not; both decode padded and unpadded input)',
             'end-to-end transport of the header block (hyper/h2/hpack)',
             'Keys::next and Values::next are under contract like Iter::next (each key / value is presented on the side its name says); get_all / entry / iter_mut / values_mut accessors, MetadataKey FromStr, MetadataValue FromStr/to_str and the String impls of the sealed key traits are not under contract in this build',
             'the repr(transparent) pointer casts unchecked_from_header_*_ref are trusted (A-tonic-unsafe-01)',
@@ -109,9 +109,9 @@ PROPS = {
         ]),
     'C04': dict(
         witness=[dict(append_to='tonic/src/status.rs', module='replay/status_witness.rs', crate='tonic', filter='verif_witness_status', features=['--features', 'gzip,deflate,zstd'])],
-        units=['status', 'errmap'], kani=['encoding_set', 'code_from_h2_table', 'h2_reason_constants', 'http_status_constants'], level='proof',
+        units=['status', 'errmap', 'b64cfg'], kani=['encoding_set', 'code_from_h2_table', 'h2_reason_constants', 'http_status_constants'], level='proof',
         not_covered=[
-            'percent-encoding and base64 crates implement their RFCs and are mutually inverse (axioms A-pct-01, A-b64-01); tonic/src/util.rs engine configuration is represented by the Engine shim',
+            'percent-encoding and base64 crates implement their RFCs and are mutually inverse (axioms A-pct-01, A-b64-01); the two engine constants of tonic/src/util.rs are checked against that assumption in unit b64cfg (standard alphabet; STANDARD pads, STANDARD_NO_PAD does not; both decode padded and unpadded input)',
             'percent-encoding itself (that pct_dec inverts pct_enc) is assumed (A-pct-01/02); WHICH bytes tonic asks it to escape is decided: the complete Kani harness kani::encoding_set runs the real percent_encode with the real ENCODING_SET on all 256 bytes',
             'metadata that itself uses one of the three status header names (grpc-status-details-bin is not reserved) is outside lemma_status_roundtrip',
             'h2 reasons FRAME_SIZE_ERROR, STREAM_CLOSED, HTTP_1_1_REQUIRED and unknown ones are left unconstrained (the property names no code for them)',
@@ -119,16 +119,16 @@ PROPS = {
         ]),
     'C01': dict(
         witness=[dict(append_to='tonic/src/codec/decode.rs', module='replay/decode_witness.rs', crate='tonic', filter='verif_witness_decode', features=['--features', 'gzip,deflate,zstd']), dict(append_to='tonic/src/codec/encode.rs', module='replay/encode_witness.rs', crate='tonic', filter='verif_witness_encode', features=['--features', 'gzip,deflate,zstd'])],
-        units=['wire', 'encode', 'decode', 'compression'], level='proof',
+        units=['wire', 'encode', 'decode', 'compression', 'prostcodec'], level='proof',
         not_covered=[
             'gzip/deflate/zstd coders are inverses of their decoders (flate2/zstd FFI): axioms A-compress-01/04; that compress()/decompress() call the coder NAMED by the encoding and append exactly its output is proved on the real bodies (unit compression)',
-            'prost encode/decode satisfy the codec contracts A-codec-01..04 (decode reads the whole payload, never Ok(None); encode appends exactly ser(item))',
+            'the codec contracts A-codec-01 / A-codec-03 (decode reads the whole payload and never answers Ok(None); encode appends exactly ser(item)) are assumed of an arbitrary user codec in units encode / decode and PROVED for tonic\'s own ProstCodec in unit prostcodec, relative to prost being an inverse pair (A-prost-10) that reads all remaining bytes (A-prost-15)',
             'buffer_size only affects reserve() arguments; capacity is not part of the BytesMut view (A-bytes-reserve)',
             'whole-stream statements are mechanised as inductions over arbitrary finite poll histories whose step relation is the proved postcondition of the real function: lemma_enc_schedule_independent (emitted chunks == wire image of the items consumed, whatever the batching / readiness) and lemma_dec_chunking_independent (bytes received == frames of the messages handed out ++ still unparsed, each message the decoding of its frame, whatever the chunking); the final composition encoder-then-decoder additionally needs the codec to be an inverse pair (assumed, codec side) and is stated at spec level only (lemma_parse_wire, lemma_parse_append)',
         ]),
     'C03': dict(
         witness=[dict(append_to='tonic/src/codec/encode.rs', module='replay/encode_witness.rs', crate='tonic', filter='verif_witness_encode', features=['--features', 'gzip,deflate,zstd'])],
-        units=['wire', 'encode', 'status', 'reqresp', 'compression', 'clientglue', 'serverglue'], level='proof',
+        units=['wire', 'encode', 'status', 'reqresp', 'compression', 'clientglue', 'serverglue', 'prostcodec'], level='proof',
         not_covered=[
             'the request head (POST, HTTP/2, te, content-type, path under the origin) is proved on the real GrpcConfig::prepare_request (unit clientglue), the response head on the real server Grpc::map_response / Status::into_http (unit serverglue, status); the generated code that picks the path string is not covered',
             'that compress() uses the coder named in grpc-encoding (FFI)', 'HTTP/2 serialisation of heads and trailers (hyper/h2)',
@@ -140,11 +140,11 @@ PROPS = {
         ),
     'C07': dict(
         witness=[dict(append_to='tonic/src/codec/decode.rs', module='replay/decode_witness.rs', crate='tonic', filter='verif_witness_decode', features=['--features', 'gzip,deflate,zstd'])],
-        units=['decode', 'compression'], level='proof',
+        units=['decode', 'compression', 'prostcodec'], level='proof',
         not_covered=[
             '"every poll completes" is decided only as safety: each loop iteration of Streaming::poll_next either returns or polls the body exactly once; termination under a body that yields frames forever is liveness and not claimed',
             'compressed garbage: decompress() is behind contract A-compress-02 (flate2/zstd are FFI)',
-            'undecodable payloads: the Decoder is behind codec contract A-codec-01 (prost)',
+            'undecodable payloads: an arbitrary Decoder is behind codec contract A-codec-01; for the default ProstDecoder the contract is proved (unit prostcodec: a payload prost refuses is an INTERNAL status, never Ok(None), never a panic) relative to prost (A-prost-10/15)',
             'DecodeBuf::{chunk,advance,copy_to_bytes} asserts are the decoder implementation\'s obligations',
         ]),
 }
